@@ -195,10 +195,10 @@ def gather_index(task, n):
 
 
 def gather_all(task):
-    ns = task.get_config().namespace
+    """Whole registry, labelled by the namespace-free part of each input's name (a task object shared by several
+    mounts carries the full names of one of them, so namespaces are not part of the label)."""
     out = []
     for k, t in task.input_tasks.items():
         if _is_task(t):
-            label = k[len(ns) + 2:] if ns and k.startswith(ns + '::') else k
-            out.append((label, t.value))
-    return sorted(out, key=lambda kv: kv[0])
+            out.append((k.split('::')[-1], t.value))
+    return sorted(((l, v) for l, v in out), key=lambda kv: (kv[0], str(digest_of(kv[1]))))
